@@ -9,7 +9,8 @@ from harness import scen, xmlabs
 from harness.props import xmicommon as xc
 
 ID = "C01"
-COQ_TARGETS = ["Lex.vo", "LexProofs.vo", "XmiDoc.vo", "Xmi.vo", "XmiProofs.vo", "CorrC04.vo", "CorrC01.vo", "XmiExample.vo", "Props/C01.vo"]
+COQ_TARGETS = ["Lex.vo", "LexProofs.vo", "XmiDoc.vo", "Xmi.vo", "XmiProofs.vo", "ReachProofs.vo", "ReachSpec.vo", "XmiWf.vo", "XmiDocOk.vo",
+               "XmiLoad.vo", "XmiLoadProofs.vo", "XmiLoadProofs2.vo", "XmiRt.vo", "XmiRtProofs.vo", "CorrC04.vo", "CorrC01.vo", "XmiExample.vo", "Props/C01.vo"]
 PROPS_FILE = "Props/C01.v"
 CORR_IMPORTS = "Base Heap Schema Canon XmiDoc Xmi CorrC01"
 OPEN_SCOPES = ["Z_scope"]
